@@ -389,7 +389,9 @@ class AdaptivePolicy:
         elapsed = (now - self._last_refill_time).to_seconds()
         if elapsed <= 0:
             return
-        max_tokens = self._current_rate * self._window_size
+        # The bucket must be able to hold one whole token, otherwise a rate
+        # below 1/window_size could never admit anything again.
+        max_tokens = max(1.0, self._current_rate * self._window_size)
         self._tokens = min(max_tokens, self._tokens + elapsed * self._current_rate)
         self._last_refill_time = now
 
